@@ -55,9 +55,11 @@ if use_cython:
 SYMBOL_ATTRIBUTES = {
     "ANCHORPOINT",
     "ANTIALIAS",
+    "BACKGROUNDCOLOR",
     "FILLED",
     "FONT",
     "IMAGE",
+    "INCLUDE",
     "NAME",
     "COLOR",
     "TYPE",
